@@ -7,29 +7,29 @@ import Uquic.Proofs.SentLedger
 namespace Uquic.Props.C06
 open Uquic.Model.Sent Uquic.Proofs.Sent List
 
-/-- all frames handed to `SentPacket` during a history -/
-def handedAll (ops : List (Op × StepEnv)) : List Frame := ops.flatMap fun x => handed x.1
-
-/-- **ledger** (invariant form): for every history of operations with arbitrary environment inputs, as long
-    as no operation panics,  tracked-before ⊎ handed  =  tracked-after ⊎ reported ⊎ discarded  as multisets. -/
-theorem ledger_run (ops : List (Op × StepEnv)) : ∀ (s : State), DummyOK s → (s.run ops).ok = true →
-    (pending s ++ handedAll ops ~ pending (s.run ops).s ++ evFrames (s.run ops).evs ++ (s.run ops).disc) ∧
+/-- **ledger** (invariant form): for every history of operations with arbitrary environment inputs that does
+    not end in a panic,  tracked-before ⊎ handed  =  tracked-after ⊎ reported ⊎ discarded  as multisets. -/
+theorem ledger_run (ops : List (Op × StepEnv)) : ∀ (s : State), DummyOK s → (s.run ops).res.isPanic = false →
+    (pending s ++ (s.run ops).handed ~ pending (s.run ops).s ++ evFrames (s.run ops).evs ++ (s.run ops).disc) ∧
       DummyOK (s.run ops).s := by
   induction ops with
-  | nil => intro s d _; simp [State.run, handedAll]; exact d
+  | nil => intro s d _; simp [State.run]; exact d
   | cons x xs ih =>
     intro s d hok
     obtain ⟨op, e⟩ := x
     simp only [State.run] at hok ⊢
-    by_cases hp : (s.step op e).2.res.isPanic = true
-    · simp [hp] at hok
-    · have hp' : (s.step op e).2.res.isPanic = false := by simpa using hp
-      simp only [hp', Bool.false_eq_true, if_false] at hok ⊢
-      obtain ⟨s1, s2⟩ := step_ledger d hp'
+    cases hr : (s.step op e).2.res with
+    | ok =>
+      simp only [hr] at hok ⊢
+      obtain ⟨s1, s2⟩ := step_ledger d (by rw [hr]; rfl)
       obtain ⟨i1, i2⟩ := ih _ s2 hok
       refine ⟨?_, i2⟩
-      simp only [handedAll, List.flatMap_cons, evFrames_append] at i1 ⊢
+      simp only [evFrames_append] at i1 ⊢
       perm_solve [s1, i1]
+    | err c =>
+      simp only [hr] at hok ⊢
+      exact step_ledger d (by rw [hr]; rfl)
+    | panic c => simp [hr, Res.isPanic] at hok
 
 theorem new_pending (pn : PN) (val client : Bool) (nts : PN) : pending (State.new pn val client nts) = [] := by
   simp [State.new, pending, spacePending, Space.new, Hist.pending]
@@ -40,8 +40,8 @@ theorem new_DummyOK (pn : PN) (val client : Bool) (nts : PN) : DummyOK (State.ne
 /-- **ledger**: from a fresh handler, after any history without a panic, the frames handed over are exactly
     the frames still tracked, plus those reported (acked or lost), plus those discarded — as multisets. -/
 theorem ledger (pn : PN) (val client : Bool) (nts : PN) (ops : List (Op × StepEnv))
-    (hok : ((State.new pn val client nts).run ops).ok = true) :
-    handedAll ops ~ pending ((State.new pn val client nts).run ops).s ++
+    (hok : ((State.new pn val client nts).run ops).res.isPanic = false) :
+    ((State.new pn val client nts).run ops).handed ~ pending ((State.new pn val client nts).run ops).s ++
       evFrames ((State.new pn val client nts).run ops).evs ++ ((State.new pn val client nts).run ops).disc := by
   have := (ledger_run ops _ (new_DummyOK pn val client nts) hok).1
   rw [new_pending] at this
@@ -49,7 +49,7 @@ theorem ledger (pn : PN) (val client : Bool) (nts : PN) (ops : List (Op × StepE
 
 /-- each frame is reported at most once, and a reported frame is neither tracked any more nor discarded -/
 theorem reported_at_most_once (pn : PN) (val client : Bool) (nts : PN) (ops : List (Op × StepEnv))
-    (hok : ((State.new pn val client nts).run ops).ok = true) (hnd : (handedAll ops).Nodup) :
+    (hok : ((State.new pn val client nts).run ops).res.isPanic = false) (hnd : ((State.new pn val client nts).run ops).handed.Nodup) :
     (evFrames ((State.new pn val client nts).run ops).evs).Nodup ∧
     ∀ f ∈ evFrames ((State.new pn val client nts).run ops).evs,
       f ∉ pending ((State.new pn val client nts).run ops).s ∧ f ∉ ((State.new pn val client nts).run ops).disc := by
@@ -68,9 +68,9 @@ theorem reported_at_most_once (pn : PN) (val client : Bool) (nts : PN) (ops : Li
 /-- a frame handed over that is neither tracked any more nor discarded (with its packet number space, by
     0-RTT rejection, or as a path probe dropped at migration) has been reported exactly once -/
 theorem resolved_exactly_once (pn : PN) (val client : Bool) (nts : PN) (ops : List (Op × StepEnv))
-    (hok : ((State.new pn val client nts).run ops).ok = true) (f : Frame)
+    (hok : ((State.new pn val client nts).run ops).res.isPanic = false) (f : Frame)
     (hp : f ∉ pending ((State.new pn val client nts).run ops).s) (hd : f ∉ ((State.new pn val client nts).run ops).disc) :
-    (evFrames ((State.new pn val client nts).run ops).evs).count f = (handedAll ops).count f := by
+    (evFrames ((State.new pn val client nts).run ops).evs).count f = ((State.new pn val client nts).run ops).handed.count f := by
   have h := (ledger pn val client nts ops hok).count_eq f
   simp only [List.count_append] at h
   rw [List.count_eq_zero_of_not_mem hp, List.count_eq_zero_of_not_mem hd] at h
